@@ -5,6 +5,7 @@ package replay
 // with a global sequence number.  The trace is judged by TLC against spec/StopTrace.tla.
 
 import (
+	"sync/atomic"
 	"verif/harness/dbwrap"
 	"encoding/json"
 	"fmt"
@@ -238,21 +239,28 @@ func containsStr(s, sub string) bool {
 // must present the ledger of the final best chain (SyncedWhenQuiet, LedgerWhenQuiet); what depends on
 // the interleaving (the pending set and the flags derived from it) is not compared.
 func ReplayFree(u *Universe, h History, dir string, seed int64) (res Result) {
-	return replayFree(u, h, dir, seed, false, false)
+	return replayFree(u, h, dir, seed, false, false, 0)
 }
 
 // ReplayTraced is ReplayFree with every chain action, scheduling point and database commit recorded
 // (ledgertrace.go); the lines are judged by TLC against spec/WalletTrace.tla.
 func ReplayTraced(u *Universe, h History, dir string, seed int64) (res Result) {
-	return replayFree(u, h, dir, seed, true, false)
+	return replayFree(u, h, dir, seed, true, false, 0)
 }
 
 // ReplayTracedQueries is ReplayTraced with a query thread asking for balance and unspent outputs all the time.
 func ReplayTracedQueries(u *Universe, h History, dir string, seed int64) (res Result) {
-	return replayFree(u, h, dir, seed, true, true)
+	return replayFree(u, h, dir, seed, true, true, 0)
 }
 
-func replayFree(u *Universe, h History, dir string, seed int64, traced, queries bool) (res Result) {
+// ReplayTracedFaults is ReplayTraced with up to `faults` storage faults injected into steps of the follower and
+// updates of the worker while everything runs; a tip that a failed block step lost is made up for by further
+// (empty) blocks at the end, so only the trace is judged, not the final view of the history.
+func ReplayTracedFaults(u *Universe, h History, dir string, seed int64, faults int) (res Result) {
+	return replayFree(u, h, dir, seed, true, false, faults)
+}
+
+func replayFree(u *Universe, h History, dir string, seed int64, traced, queries bool, faults int) (res Result) {
 	res.OK = true
 	for i := range h {
 		switch h[i].A {
@@ -274,6 +282,9 @@ func replayFree(u *Universe, h History, dir string, seed int64, traced, queries 
 			return Result{OK: false, Err: "harness: traced replay of an offset world"}
 		}
 		rec = &ltRec{w: w, roles: map[int64]string{}, rnd: rand.New(rand.NewSource(seed ^ 0x7ace)), jitter: 25}
+		if faults > 0 {
+			rec.faultEvery, rec.faultsLeft = 23+seed%40, int64(faults)
+		}
 		w.G.mu.Lock()
 		w.G.rec = rec
 		w.G.mu.Unlock()
@@ -363,10 +374,43 @@ func replayFree(u *Universe, h History, dir string, seed int64, traced, queries 
 	// wait for quiescence
 	exp := &h[len(h)-1].Exp
 	deadline := time.Now().Add(30 * time.Second)
+	injected := int64(0)
+	if rec != nil && faults > 0 {
+		atomic.StoreInt64(&rec.faultsLeft, 0) // no fault from here on
+		injected = atomic.LoadInt64(&rec.injected)
+	}
+	repairs, lastRepair := 0, time.Now()
 	for {
 		nb, nt := w.H.VerifQueued()
 		st, serr := w.W.SyncedTo()
-		idle := nb == 0 && nt == 0 && w.H.VerifTaskQueueLen() == 0 && serr == nil && int(st)-u.Offset == exp.Synced
+		onTip := int(st)-u.Offset == exp.Synced
+		if injected > 0 {
+			// a block step that met a fault lost its tip: the wallet catches up with the next one, so the node mines on
+			// (empty blocks, recorded like any chain action) until the follower stands on the node's tip
+			tip := w.E.Tip()
+			onTip = w.H.VerifBestBlock().Hash == *tip.Hash()
+			if !onTip && nb == 0 && nt == 0 && time.Since(lastRepair) > 300*time.Millisecond && repairs < 5 {
+				next, parent := 0, -1
+				for id, b := range w.Blk {
+					if id > next {
+						next = id
+					}
+					if *b.Hash() == *tip.Hash() {
+						parent = id
+					}
+				}
+				if parent < 0 || next+1 > len(u.CbId) {
+					return Result{OK: false, Err: "harness: the universe has no block left to make up for a tip lost to an injected fault"}
+				}
+				if err := rec.chain(&Step{A: "Extend", B: next + 1, P: parent, Txs: [][]string{{}}}); err != nil {
+					return Result{OK: false, Err: "harness: repair block: " + err.Error()}
+				}
+				flush()
+				repairs++
+				lastRepair = time.Now()
+			}
+		}
+		idle := nb == 0 && nt == 0 && w.H.VerifTaskQueueLen() == 0 && serr == nil && onTip
 		if idle {
 			ready := true
 			if sums, err := w.W.Wallets(); err == nil {
@@ -390,6 +434,11 @@ func replayFree(u *Universe, h History, dir string, seed int64, traced, queries 
 	time.Sleep(20 * time.Millisecond) // a step that has taken its item off the queue may still be committing
 	if w.stopQueries != nil {
 		w.stopQueries()
+	}
+	if injected > 0 {
+		// the chain may have grown beyond the history (repair blocks): the trace is the oracle of this run
+		res.Compared = 1
+		return res
 	}
 	diffs, err := w.Compare(exp)
 	if err != nil {
